@@ -20,13 +20,91 @@ class HarnessError(Exception):
     """Something is wrong with the simulator itself (exit code 2, never a verdict)."""
 
 
+class VirtualClock:
+    """
+    The seam for wall-clock reads.  pyubx2 reads no clock today; if code under test ever does
+    (time.monotonic / time.time / time.perf_counter / time.sleep), it gets the simulator's clock
+    while a simulated transport is active, so that timeouts stay a function of the schedule.
+    The wrappers are installed BEFORE pyubx2 is imported, so `from time import monotonic` binds to them.
+    """
+
+    source = None  # object with a .now attribute (a simulated transport) or None
+
+    @classmethod
+    def install(cls):
+        import time as _t  # pylint: disable=import-outside-toplevel
+
+        if getattr(_t, "_dst_seam", False):
+            return
+        real = {n: getattr(_t, n) for n in ("monotonic", "time", "perf_counter", "sleep", "monotonic_ns", "time_ns", "perf_counter_ns")}
+
+        def reader(name, scale=1):
+            def fn():
+                src = cls.source
+                if src is None:
+                    return real[name]()
+                return int(src.now * scale) if scale != 1 else float(src.now)
+
+            fn.__name__ = name
+            return fn
+
+        def sleep(secs):
+            src = cls.source
+            if src is None:
+                return real["sleep"](secs)
+            src.now += max(float(secs), 0.0)
+            return None
+
+        _t.monotonic = reader("monotonic")
+        _t.time = reader("time")
+        _t.perf_counter = reader("perf_counter")
+        _t.monotonic_ns = reader("monotonic_ns", 10**9)
+        _t.time_ns = reader("time_ns", 10**9)
+        _t.perf_counter_ns = reader("perf_counter_ns", 10**9)
+        _t.sleep = sleep
+        _t._dst_seam = True  # pylint: disable=protected-access
+        cls.real = real
+
+
+class clock:  # pylint: disable=invalid-name
+    """with core.clock(transport): ...  - the code under test reads the transport's virtual clock."""
+
+    def __init__(self, transport):
+        self.src = transport if hasattr(transport, "now") else None
+
+    def __enter__(self):
+        self.prev = VirtualClock.source
+        VirtualClock.source = self.src
+        return self
+
+    def __exit__(self, *exc):
+        VirtualClock.source = self.prev
+        return False
+
+
 def bootstrap():
     """Import the code under test from /repo/src (never from a stale copy or .pyc)."""
     sys.dont_write_bytecode = True
+    VirtualClock.install()
     if REPO_SRC in sys.path:
         sys.path.remove(REPO_SRC)
     sys.path.insert(0, REPO_SRC)
-    import pyubx2  # pylint: disable=import-outside-toplevel
+    # Locks the code under test creates while it is imported (module / class level) are made
+    # simulator-aware: a scheduled worker that finds one taken yields the baton instead of blocking.
+    import threading  # pylint: disable=import-outside-toplevel
+    from sim import threads as _simthreads  # pylint: disable=import-outside-toplevel
+
+    real_lock, real_rlock = threading.Lock, threading.RLock
+    threading.Lock, threading.RLock = _simthreads.sim_lock, _simthreads.sim_rlock
+    try:
+        import pyubx2  # pylint: disable=import-outside-toplevel
+        import pkgutil  # pylint: disable=import-outside-toplevel
+        import importlib  # pylint: disable=import-outside-toplevel
+
+        for mod in pkgutil.iter_modules(pyubx2.__path__):
+            importlib.import_module("pyubx2." + mod.name)
+    finally:
+        threading.Lock, threading.RLock = real_lock, real_rlock
 
     got = os.path.realpath(os.path.dirname(pyubx2.__file__))
     want = os.path.realpath(os.path.join(REPO_SRC, "pyubx2"))
